@@ -11,6 +11,8 @@
 (*             created simulation the recomputed slots with their twins,    *)
 (*             the first hour of each simulated series, the date            *)
 (*   SimSet / SimReset  the state after the toggle                          *)
+(*   SimProbe  a simulation of one input at an interior date (systematic   *)
+(*             sweep over the inputs of a system): recomputed slots only    *)
 (*   RealUpdate  value classes after really applying the same changes to a  *)
 (*             rebuilt copy of the system (same class numbering)            *)
 (* The protocol is EFSim's: whenever the simulated values are not set the   *)
@@ -67,6 +69,16 @@ CheckCreate(e) ==
                               e.recomputed[m].min_hour >= 0 /\ e.recomputed[m].min_hour < e.date_hour}}) ELSE TRUE
        ELSE TRUE
 
+CheckProbe(e) ==       \* a simulation of one input of a system, judged on the recomputed values only
+    /\ IF C06 /\ \E n \in DOMAIN e.recomputed : ~e.recomputed[n].twin_ok
+       THEN Fail(e, "twins-not-paired", {e.recomputed[n].slot : n \in {m \in DOMAIN e.recomputed : ~e.recomputed[m].twin_ok}}) ELSE TRUE
+    /\ IF C06 /\ Len(e.recomputed) # e.n_values_to_recompute
+       THEN Fail(e, "recomputed-values-count-differs", <<Len(e.recomputed), e.n_values_to_recompute>>) ELSE TRUE
+    /\ IF C06 /\ e.all_ups_active /\ \E n \in DOMAIN e.recomputed : e.recomputed[n].min_hour >= 0 /\ e.recomputed[n].min_hour < e.date_hour
+       THEN Fail(e, "simulated-series-has-hour-before-the-date",
+                 {<<e.recomputed[n].slot, e.recomputed[n].min_hour>> : n \in {m \in DOMAIN e.recomputed :
+                      e.recomputed[m].min_hour >= 0 /\ e.recomputed[m].min_hour < e.date_hour}}) ELSE TRUE
+
 CheckSet(e) ==
     /\ IF C05 /\ \E n \in DOMAIN sim.recomputed :
                     sim.recomputed[n].slot \in DOMAIN e.tok /\ e.tok[sim.recomputed[n].slot] # sim.recomputed[n].sim_tok
@@ -86,6 +98,7 @@ Step ==
          [] e.ev = "SimCreate" -> CheckCreate(e) /\ sim' = e /\ UNCHANGED <<base, simval>> /\ isSet' = FALSE
          [] e.ev = "SimSet" -> CheckSet(e) /\ simval' = e.val /\ isSet' = TRUE /\ UNCHANGED <<base, sim>>
          [] e.ev = "SimReset" -> (IF C05 THEN SameAsBaseline(e, "after-reset") ELSE TRUE) /\ isSet' = FALSE /\ UNCHANGED <<base, sim, simval>>
+         [] e.ev = "SimProbe" -> CheckProbe(e) /\ UNCHANGED <<base, sim, simval, isSet>>
          [] e.ev = "RealUpdate" -> CheckReal(e) /\ UNCHANGED <<base, sim, simval, isSet>>
 
 Init == i = 0 /\ base = <<>> /\ sim = <<>> /\ simval = <<>> /\ isSet = FALSE
